@@ -7,7 +7,7 @@ Import ListNotations.
 Definition no_gbk (_ : list N) : Z := 0%Z.      (* ASCII files never consult the GBK oracle *)
 
 (* outline of a one-file workspace *)
-Definition outline_of_bytes (fx : bool) (bs : list N) : option (list sym) :=
+Definition outline_of_bytes (fx : fixes) (bs : list N) : option (list sym) :=
   match analyse_bytes no_gbk bs with
   | Ok (FsOk st) => Some (find_all_symbol fx (finalize st))
   | _ => None
@@ -27,34 +27,49 @@ Definition key_is (k : bytes) (s : sym) : bool := beq_bytes (s_key s) k.
 
 (* the entry of `u`: declared at 1:6-1:7 (Loc convention, line from 1), reported 1:37-1:7 = LSP 0:37-0:7 *)
 Lemma rewrite_local_witness :
-  exists s, outline_of_bytes false w_local = Some [s] /\
+  exists s, outline_of_bytes fx_none w_local = Some [s] /\
             s_key s = [117%N] /\ s_decl s = mkLoc 1 6 1 7 /\ s_loc s = mkLoc 1 37 1 7 /\
             well_formed (s_loc s) = false /\ contains (s_loc s) (s_decl s) = false.
 Proof. eexists. vm_compute. repeat split. Qed.
 
 (* the entry of `t`: declared at 1:0-1:1, reported from column 3 *)
 Lemma rewrite_global_witness :
-  exists s, outline_of_bytes false w_global = Some [s] /\
+  exists s, outline_of_bytes fx_none w_global = Some [s] /\
             s_key s = [116%N] /\ s_decl s = mkLoc 1 0 1 1 /\ s_loc s = mkLoc 1 3 2 1 /\
             contains (s_loc s) (s_decl s) = false.
 Proof. eexists. vm_compute. repeat split. Qed.
 
 (* with the fix both ranges are well formed and contain the declaring identifier *)
 Lemma rewrite_witnesses_fixed :
-  (exists s, outline_of_bytes true w_local = Some [s] /\ s_loc s = mkLoc 1 6 1 37 /\
+  (exists s, outline_of_bytes deployed w_local = Some [s] /\ s_loc s = mkLoc 1 6 1 37 /\
              well_formed (s_loc s) = true /\ contains (s_loc s) (s_decl s) = true) /\
-  (exists s, outline_of_bytes true w_global = Some [s] /\ s_loc s = mkLoc 1 0 2 3 /\
+  (exists s, outline_of_bytes deployed w_global = Some [s] /\ s_loc s = mkLoc 1 0 2 3 /\
              well_formed (s_loc s) = true /\ contains (s_loc s) (s_decl s) = true).
 Proof. split; eexists; vm_compute; repeat split. Qed.
 
-(* a function-valued assignment: the entry has no children and its range is the function literal *)
+(* a function-valued assignment before fixes/C19-assigned-function-range.diff (fx_round1 = /repo after the first repair):
+   the entry has no children and its range is the function literal *)
 Lemma assigned_function_witness :
-  forall fx, exists s, outline_of_bytes fx w_assigned = Some [s] /\
+  exists s, outline_of_bytes fx_round1 w_assigned = Some [s] /\
             s_key s = [104%N] /\ s_children s = [] /\ s_fn s = true /\
             s_decl s = mkLoc 1 0 1 1 /\ s_loc s = mkLoc 1 4 1 18 /\ contains (s_loc s) (s_decl s) = false.
-Proof. intros [|]; eexists; vm_compute; repeat split. Qed.
+Proof. eexists; vm_compute; repeat split. Qed.
 
-(* two top-level declarations of x, one entry (the second) *)
+(* repaired: the range is the Union of the identifier and the function literal *)
+Lemma assigned_function_repaired :
+  exists s, outline_of_bytes deployed w_assigned = Some [s] /\
+            s_key s = [104%N] /\ s_fn s = true /\
+            s_decl s = mkLoc 1 0 1 1 /\ s_loc s = mkLoc 1 0 1 18 /\ contains (s_loc s) (s_decl s) = true.
+Proof. eexists; vm_compute; repeat split. Qed.
+
+(* two top-level declarations of x: before fixes/C19-shadowed-top-local.diff one entry (the second) *)
 Lemma shadowed_witness :
-  forall fx, exists s, outline_of_bytes fx w_shadow = Some [s] /\ s_key s = [120%N] /\ s_decl s = mkLoc 2 6 2 7.
-Proof. intros [|]; eexists; vm_compute; repeat split. Qed.
+  exists s, outline_of_bytes fx_round1 w_shadow = Some [s] /\ s_key s = [120%N] /\ s_decl s = mkLoc 2 6 2 7.
+Proof. eexists; vm_compute; repeat split. Qed.
+
+(* repaired: one entry per declaration *)
+Lemma shadowed_repaired :
+  exists s1 s2, outline_of_bytes deployed w_shadow = Some [s1; s2] /\
+                s_key s1 = [120%N] /\ s_decl s1 = mkLoc 1 6 1 7 /\ s_loc s1 = mkLoc 1 6 1 7 /\
+                s_key s2 = [120%N] /\ s_decl s2 = mkLoc 2 6 2 7 /\ s_loc s2 = mkLoc 2 6 2 7.
+Proof. do 2 eexists; vm_compute; repeat split. Qed.
